@@ -196,6 +196,15 @@ def name_step(line):
             r = "R " + ",".join(sorted(object.__getattribute__(c, "namespaces")))
             Blackboard.clear()
             return r
+        if t[0] == "rebuild":
+            Blackboard.clear()
+            c = Client(name="x")
+            c.register_key(key=d(t[1]), access=Access.READ)
+            c.register_key(key="/zz", access=Access.READ)
+            c.unregister_key("/zz")
+            r = "R " + ",".join(sorted(object.__getattribute__(c, "namespaces")))
+            Blackboard.clear()
+            return r
     except KeyError:
         return "KeyError"
     return "bad-op"
